@@ -28,8 +28,122 @@ BUILTIN_OPS = {'TempScaler': ('scale_factor', (1, 1), '', (0, 1))}
 # built-in mixin x base class combinations that the mixin itself refuses (MakeFreeMixin: 'Class is already free-type')
 INCOMPATIBLE = {('MakeFreeMixin', 'TaurexChemistry')}
 # values a base needs in every file (no usable default)
-FIXED = {('chemistry', 'ChemistryFile'): [('filename', dict(k='scalar', toks=['@P1'])), ('gases', dict(k='list', toks=['H2O', 'CH4']))]}
+FIXED = {('chemistry', 'ChemistryFile'): [('filename', dict(k='scalar', toks=['@P1'])), ('gases', dict(k='list', toks=['H2', 'He', 'H2O']))]}
 PROBE_X = 1000.0
+
+# ---- sub-sections (spec/FactoryMix.tla: subs).  name, selector, keys as written; only selectors that the
+# documentation lists and the live registry resolves take part (choose_subs)
+SUB_CHOICES = {'gas': [('N2', 'constant', [('mix_ratio', dict(k='scalar', toks=['1e-2']))]),
+                       ('H2O', 'constant', [('mix_ratio', dict(k='scalar', toks=['1e-4']))]),
+                       ('CH4', 'twolayer', [('mix_ratio_surface', dict(k='scalar', toks=['1e-2'])), ('mix_ratio_top', dict(k='scalar', toks=['1e-4'])),
+                                            ('mix_ratio_P', dict(k='scalar', toks=['1e3']))])],
+               'contribution': [('Absorption', 'Absorption', []), ('Rayleigh', 'Rayleigh', []),
+                                ('SimpleClouds', 'SimpleClouds', [('clouds_pressure', dict(k='scalar', toks=['1e3']))]),
+                                ('CIA', 'CIA', [('cia_pairs', dict(k='list', toks=['H2-He']))])]}
+SUB_ADD_METHOD = dict(chemistry='addGas', model='add_contribution')
+# custom python_file classes (custom.rst) through which sub-sections must reach the component as well.  Each file
+# imports the class it derives from -- the class an input file resolves to is the one DEFINED in the file.
+CUSTOM_BASES = [
+    dict(kind='chemistry', tag='chemistry_free', name='VerifFreeChemistry', params=['fill_gases', 'ratio', 'extra_scale'], imports=['TaurexChemistry'],
+         keys=[dict(name='extra_scale', typ='float')], adds=True, src='''
+from taurex.chemistry import TaurexChemistry
+class VerifFreeChemistry(TaurexChemistry):
+    """A free chemistry of the user's own: inherits addGas."""
+    def __init__(self, fill_gases=['H2', 'He'], ratio=0.17567, extra_scale=1.0):
+        super().__init__(fill_gases=fill_gases, ratio=ratio)
+        self._extra_scale = extra_scale
+'''),
+    dict(kind='chemistry', tag='chemistry_duck', name='VerifDuckChemistry', params=['base_gas', 'scale'], imports=['AutoChemistry'],
+         keys=[dict(name='scale', typ='float')], adds=True, src='''
+from taurex.data.profiles.chemistry.autochemistry import AutoChemistry
+import numpy as np
+class VerifDuckChemistry(AutoChemistry):
+    """Not a TaurexChemistry: provides its own addGas (the documented way to accept gas sub-sections)."""
+    def __init__(self, base_gas='H2', scale=1.0):
+        super().__init__('VerifDuck')
+        self._base = base_gas
+        self._scale = scale
+        self._added = []
+        self._mix = None
+        self.determine_active_inactive()
+    def addGas(self, gas):
+        self._added.append(gas)
+        self.determine_active_inactive()
+        return self
+    @property
+    def gases(self):
+        return [self._base] + [g.molecule for g in self._added]
+    def initialize_chemistry(self, nlayers=100, temperature_profile=None, pressure_profile=None, altitude_profile=None):
+        for g in self._added:
+            g.initialize_profile(nlayers, temperature_profile, pressure_profile, altitude_profile)
+        rest = np.ones(nlayers)
+        for g in self._added:
+            rest = rest - g.mixProfile
+        self._mix = np.array([rest * self._scale] + [g.mixProfile for g in self._added])
+        super().initialize_chemistry(nlayers, temperature_profile, pressure_profile, altitude_profile)
+    @property
+    def mixProfile(self):
+        return self._mix
+'''),
+    dict(kind='model', tag='model_custom', name='VerifModel', params=['planet', 'star', 'pressure_profile', 'temperature_profile', 'chemistry', 'nlayers',
+                                                                   'atm_min_pressure', 'atm_max_pressure', 'extra_scale'], imports=['TransmissionModel'],
+         keys=[], adds=True, src='''
+from taurex.model import TransmissionModel
+class VerifModel(TransmissionModel):
+    def __init__(self, planet=None, star=None, pressure_profile=None, temperature_profile=None, chemistry=None,
+                 nlayers=100, atm_min_pressure=1e-4, atm_max_pressure=1e6, extra_scale=1.0):
+        super().__init__(planet=planet, star=star, pressure_profile=pressure_profile, temperature_profile=temperature_profile,
+                         chemistry=chemistry, nlayers=nlayers, atm_min_pressure=atm_min_pressure, atm_max_pressure=atm_max_pressure)
+        self._extra_scale = extra_scale
+''')]
+
+
+def write_custom_files(tmp):
+    out = {}
+    for c in CUSTOM_BASES:
+        f = os.path.join(tmp, 'custom_%s.py' % c['tag'])
+        with open(f, 'w') as fh:
+            fh.write(c['src'])
+        out[c['tag']] = f
+    return out
+
+
+def load_custom_class(tag, files):
+    """The class a custom file defines, by name (independent of the factory's own search)."""
+    import importlib.util
+    c = [x for x in CUSTOM_BASES if x['tag'] == tag][0]
+    spec = importlib.util.spec_from_file_location('verif_custom_' + tag, files[tag])
+    mod = importlib.util.module_from_spec(spec)
+    spec.loader.exec_module(mod)
+    return getattr(mod, c['name'])
+
+
+def choose_subs(reg, entries, quick=False):
+    """The sub-sections in play: documented selectors with exactly one candidate class whose keys it accepts."""
+    out = []
+    for subkind, rows in SUB_CHOICES.items():
+        for name, sel, given in rows:
+            if quick and name == 'Rayleigh':        # (like Absorption: no keys)
+                continue
+            look = sel.lower() if subkind == 'gas' else sel
+            cs = [c for c in reg if c['kind'] == subkind and look in c['kw']]
+            documented = any(e['kind'] == subkind and e['status'] == 'builtin' and sel in e['sels'] for e in entries)
+            if len(cs) == 1 and documented and all(k in cs[0]['params'] for k, _ in given):
+                out.append(dict(kind=subkind, name=name, sel=sel, given=given))
+    return out
+
+
+def sub_adders(reg, mix):
+    """Names of the classes (base, mixin, custom) that provide the adding method of their section."""
+    from taurex.parameter.classfactory import ClassFactory
+    cf = ClassFactory()
+    out = set()
+    for kind, meth in SUB_ADD_METHOD.items():
+        for k in list(getattr(cf, FX.KIND_ATTR[kind])) + list(getattr(cf, FX.MIXIN_ATTR[kind])):
+            if callable(getattr(k, meth, None)):
+                out.add(k.__name__)
+    out.update(c['name'] for c in CUSTOM_BASES if c['adds'])
+    return sorted(out)
 
 _SRC = '''
 class {cls}({base}):
@@ -139,11 +253,14 @@ def choose_bases(reg, entries, rot=0, per_kind=2):
                         except BaseException:
                             continue
                     keys.append(kk)
-                good.append(dict(kind=kind, sel=s, cls=cname, keys=keys, fixed=fixed))
+                good.append(dict(kind=kind, sel=s, cls=cname, keys=keys, fixed=fixed, custom=''))
             if good:
                 r = rot % len(good)
                 good = good[r:] + good[:r]
             out += good if per_kind is None else good[:per_kind]
+        for c in CUSTOM_BASES:
+            out.append(dict(kind=c['kind'], sel='custom', cls=c['name'], keys=c['keys'], custom=c['tag'],
+                            fixed=[('python_file', dict(k='scalar', toks=['@C:' + c['tag']]))]))
     finally:
         shutil.rmtree(tmp, ignore_errors=True)
     return out
@@ -156,9 +273,15 @@ def _transform(raw):
     return dict(t='str', v=raw['toks'][0])
 
 
-def gen_mix_constants(mix, bases):
-    """TLA+ definitions appended to FactoryReg: HarnessMixins, MixOpTab, MixBases, MixIncompat."""
+def gen_mix_constants(mix, bases, subs=None, adders=None):
+    """TLA+ definitions appended to FactoryReg: HarnessMixins, MixOpTab, MixBases, MixIncompat, SubChoices, SubAdders, CustomBases."""
     L = []
+    if subs is None or adders is None:
+        from . import fx_docs
+        reg, mixreg = FX.live_registry()
+        ents = FX.doc_entries(fx_docs.load(), reg)
+        subs = choose_subs(reg, ents) if subs is None else subs
+        adders = sub_adders(reg, mixreg) if adders is None else adders
     hm = harness_mixins()
 
     def klass(c):
@@ -176,12 +299,20 @@ def gen_mix_constants(mix, bases):
     L.append('MixProfTab == ' + ' @@ '.join(ops + [op(c['name'], *BUILTIN_OPS.get(c['name'], ('', (1, 1), '', (0, 1)))) for c in mix]))
     rows = []
     for b in bases:
-        rows.append('[kind |-> %s, sel |-> %s, cls |-> %s, keys |-> %s, fixed |-> %s]' % (
-            FX.tla_str(b['kind']), FX.tla_str(b['sel']), FX.tla_str(b['cls']),
+        rows.append('[kind |-> %s, sel |-> %s, cls |-> %s, custom |-> %s, keys |-> %s, fixed |-> %s]' % (
+            FX.tla_str(b['kind']), FX.tla_str(b['sel']), FX.tla_str(b['cls']), FX.tla_str(b.get('custom', '')),
             FX.tla_set('[name |-> %s, typ |-> %s]' % (FX.tla_str(k['name']), FX.tla_str(k['typ'])) for k in b['keys']),
             FX.tla_set('[name |-> %s, raw |-> %s]' % (FX.tla_str(n), _raw_tla(r)) for n, r in b['fixed'])))
     L.append('MixBases == {\n  ' + ',\n  '.join(rows) + '}')
     L.append('MixIncompat == ' + FX.tla_set('<<%s, %s>>' % (FX.tla_str(a), FX.tla_str(b)) for a, b in sorted(INCOMPATIBLE)))
+    L.append('\\* sub-sections in play (documented selectors with one candidate class), classes providing addGas / add_contribution, custom files')
+    L.append('SubChoices == ' + FX.tla_set('[kind |-> %s, name |-> %s, sel |-> %s, given |-> %s]' % (
+        FX.tla_str(x['kind']), FX.tla_str(x['name']), FX.tla_str(x['sel']),
+        FX.tla_set('[name |-> %s, raw |-> %s]' % (FX.tla_str(n), _raw_tla(r)) for n, r in x['given'])) for x in subs))
+    L.append('SubAdders == ' + FX.tla_set(FX.tla_str(a) for a in adders))
+    L.append('CustomBases == ' + FX.tla_set('[kind |-> %s, name |-> %s, file |-> %s, params |-> %s, imports |-> %s]' % (
+        FX.tla_str(c['kind']), FX.tla_str(c['name']), FX.tla_str(c['tag']), FX.tla_set(FX.tla_str(p) for p in c['params']),
+        FX.tla_set(FX.tla_str(p) for p in c['imports'])) for c in CUSTOM_BASES))
     return L
 
 
@@ -234,7 +365,59 @@ def register(cf):
 
 def mix_par_text(vec, paths):
     v = dict(vec, written='+'.join(vec['toks']), given=vec['given'], unknownkey=vec['variant'] == 'unknownkey')
-    return FX.par_text(v, paths)
+    text = FX.par_text(v, paths)
+    # sub-sections of the section under test (it is the last one of the file): [[name]] + selector + keys, as documented
+    for sub in vec.get('subs') or []:
+        text += '    [[%s]]\n' % (sub['sel'] if vec['kind'] == 'model' else sub['name'])
+        if vec['kind'] == 'chemistry':
+            text += '    gas_type = %s\n' % sub['sel']
+        g = sub['given'] if isinstance(sub['given'], dict) else {}
+        for k in sorted(g):
+            text += '    %s = %s\n' % (k, FX.raw_text(g[k], 'gas' if vec['kind'] == 'chemistry' else 'contribution', k, paths))
+        if sub.get('unknownkey'):
+            text += '    not_a_key = 1\n'
+    return text
+
+
+GRAPH_NL = 11           # rows of the chemistry file @P1
+
+
+def section_graph(obj, kind):
+    """What the sub-sections built, as far as the public interface of the component shows it."""
+    import numpy as np
+    g = {}
+    if kind == 'chemistry':
+        from taurex.data.profiles.chemistry.gas.gas import Gas
+        held = []
+        for v in vars(obj).values():
+            for x in (v if isinstance(v, (list, tuple)) else []):
+                if isinstance(x, Gas) and not any(x is h for h in held):
+                    held.append(x)
+        g['held'] = [[type(x).__name__, x.molecule] for x in held]
+        try:
+            obj.initialize_chemistry(nlayers=GRAPH_NL, temperature_profile=np.linspace(1500.0, 800.0, GRAPH_NL),
+                                     pressure_profile=np.logspace(6, 0, GRAPH_NL))
+            lst = lambda a: None if a is None else np.asarray(a, dtype=float).tolist()
+            g.update(gases=list(obj.gases), active=list(obj.activeGases), inactive=list(obj.inactiveGases),
+                     fit={k: FX.snapshot(v[2]()) for k, v in sorted(obj.fitting_parameters().items())},
+                     active_mix=lst(obj.activeGasMixProfile), inactive_mix=lst(obj.inactiveGasMixProfile), mu=lst(obj.muProfile))
+        except BaseException as ex:
+            g['init_err'] = '%s: %s' % (type(ex).__name__, str(ex)[:120])
+    elif kind == 'model':
+        g['contribs'] = [[type(c).__name__, FX.snapshot(c)] for c in obj.contribution_list]
+    return g
+
+
+def _sub_objects(vec, classes, paths):
+    """The objects of the sub-sections built through the library from the specification's classes and typed values."""
+    out = []
+    subkind = 'gas' if vec['kind'] == 'chemistry' else 'contribution'
+    for b in vec.get('builtsubs') or []:
+        kw = {k: FX.typed_py(tv, subkind, k, paths) for k, tv in (b['kwargs'] if isinstance(b['kwargs'], dict) else {}).items()}
+        if subkind == 'gas':
+            kw['molecule_name'] = b['name']
+        out.append(classes[b['cls']](**kw))
+    return out
 
 
 def _effect(obj, kind):
@@ -298,12 +481,17 @@ def run_mix_vector(vec, paths, tmp, n, classes, mixins):
         res['inits'] = [[c, {k: FX.jsonable(v) for k, v in kw.items()}] for c, kw, i in _MIXREC if i == oid]
         res['baserec'] = [[c, {k: FX.jsonable(v) for k, v in kw.items()}] for c, kw, t, i in FX._REC if i == oid and c == vec.get('basecls')][:1]
         res['effect'] = _effect(obj, kind)
+        if vec.get('subs'):
+            subnames = {b['cls'] for b in (vec.get('builtsubs') or [])}
+            res['subrec'] = [[c, {k: FX.jsonable(v) for k, v in kw.items()}] for c, kw, t, i in FX._REC if c in subnames]
+            res['graph'] = section_graph(obj, kind)
     except BaseException as ex:
         res['err'] = type(ex).__name__
         res['msg'] = str(ex)[:200]
     # library side: enhance_class on the specification's classes, in the specification's order
     res['lib'] = None
-    if vec.get('err') == 'none' and kind != 'model':
+    has_subs = bool(vec.get('subs'))
+    if vec.get('err') == 'none' and (kind != 'model' or has_subs):
         from taurex.mixin import enhance_class
         try:
             kw = {}
@@ -312,14 +500,30 @@ def run_mix_vector(vec, paths, tmp, n, classes, mixins):
                     kw[k] = FX.typed_py(tv, kind, k, paths)
             if kind == 'gas':
                 kw['molecule_name'] = 'H2O'
+            if kind == 'model':     # the other sections of the same file are not under test here: the parser builds them
+                from taurex.parameter import ParameterParser
+                path = os.path.join(tmp, 'ml%d.par' % n)
+                with open(path, 'w') as f:
+                    f.write(mix_par_text(vec, paths))
+                pp = ParameterParser()
+                pp.read(path)
+                os.unlink(path)
+                kw.update(planet=pp.generate_planet(), star=pp.generate_star(), chemistry=pp.generate_chemistry_profile(),
+                          temperature_profile=pp.generate_temperature_profile(), pressure_profile=pp.generate_pressure_profile())
             ms = [mixins[m] for m in vec['bases'][:-1]]
+            base = load_custom_class(vec['custom'], paths['custom_files']) if vec.get('custom') else classes[vec['bases'][-1]]
             del _MIXREC[:]
-            lib = enhance_class(classes[vec['bases'][-1]], ms, **kw)
+            lib = enhance_class(base, ms, **kw) if ms else base(**kw)
             res['lib'] = dict(err='none', bases=[b.__name__ for b in type(lib).__bases__], mro=[b.__name__ for b in type(lib).__mro__],
                               inits=[c for c, _, i in _MIXREC if i == id(lib)], effect=_effect(lib, kind))
+            if has_subs:
+                for o in _sub_objects(vec, classes, paths):
+                    getattr(lib, SUB_ADD_METHOD[kind])(o)
+                res['lib']['graph'] = section_graph(lib, kind)
             # the plain base object, built without any factory: reference value of the chain
-            bkw = {k: v for k, v in kw.items() if k in inspect.signature(classes[vec['bases'][-1]].__init__).parameters}
-            res['base_effect'] = _effect(classes[vec['bases'][-1]](**bkw), kind)
+            if kind != 'model' and not vec.get('custom'):
+                bkw = {k: v for k, v in kw.items() if k in inspect.signature(classes[vec['bases'][-1]].__init__).parameters}
+                res['base_effect'] = _effect(classes[vec['bases'][-1]](**bkw), kind)
         except BaseException as ex:
             res['lib'] = dict(err=type(ex).__name__, msg=str(ex)[:200])
     return res
